@@ -292,6 +292,26 @@ func (X *Exec) freshResults(st *State, cc *ssa.CallCommon, hint string) *Val {
 }
 
 func (X *Exec) execCallWith(fr *Frame, ins ssa.Instruction, cc *ssa.CallCommon, st *State, how string, fnv *Val, args []*Val) *Val {
+	// call-site assumptions: evaluated after the call against a snapshot taken before it
+	var assumes []*Clause
+	for _, cs := range X.matchCallsites(fr, cc, how) {
+		assumes = append(assumes, cs.Assumes...)
+	}
+	if len(assumes) > 0 {
+		before := st.Clone()
+		res := X.execCallWith2(fr, ins, cc, st, how, fnv, args)
+		for _, a := range assumes {
+			sc := X.clauseCtx(fr, st, nil, fmt.Sprintf("%s:%d", a.File, a.Line))
+			sc.Pre = before
+			st.assume(X.E.TS, sc.EvalBool(a.Expr))
+			X.CallsiteAssumptions[fmt.Sprintf("%s: after %s: %s", X.E.P.Keys[fr.Fn], srcName(cc.Value), a.Src)]++
+		}
+		return res
+	}
+	return X.execCallWith2(fr, ins, cc, st, how, fnv, args)
+}
+
+func (X *Exec) execCallWith2(fr *Frame, ins ssa.Instruction, cc *ssa.CallCommon, st *State, how string, fnv *Val, args []*Val) *Val {
 	pos := ins.Pos()
 	skip, forceHavoc := X.applyCallsites(fr, st, cc, how, pos)
 	if skip {
@@ -638,6 +658,28 @@ func (X *Exec) havocLoc(c *SpecCtx, st *State, loc *SExpr) {
 			}
 		case "maxalloc":
 			X.setHeap(st, "GM|maxalloc", SInt, ts.Fresh("mod.maxalloc", SInt))
+			return
+		case "boxed":
+			// boxed(x): what the pointer inside interface value x points to. Shallow targets (pointer to a basic
+			// value or to a slice of basic values) are havoced alone; anything deeper havocs the whole heap.
+			x := c.eval(loc.Args[0])
+			if x.T.Op == "app" && strings.HasPrefix(x.T.Name, "box|") {
+				if pt, ok := X.E.boxTypes[strings.TrimPrefix(x.T.Name, "box|")].(*types.Pointer); ok {
+					shallow := false
+					switch u := pt.Elem().Underlying().(type) {
+					case *types.Basic:
+						shallow = true
+					case *types.Slice:
+						_, shallow = u.Elem().Underlying().(*types.Basic)
+					}
+					if shallow {
+						a := &Addr{Kind: AddrObj, Ref: x.T.Args[0], ObjT: pt.Elem(), T: pt.Elem()}
+						X.store(st, a, X.freshOfType(st, pt.Elem(), "mod.boxed"))
+						return
+					}
+				}
+			}
+			X.havocAll(st, "boxed")
 			return
 		}
 		if gm, ok := X.E.Specs.GhostMaps[loc.Name]; ok {
